@@ -1,5 +1,6 @@
 import re
 from copy import deepcopy
+from fractions import Fraction
 
 from .base import (
     BaseReader, BaseWriter, CaptionSet, CaptionList, Caption, CaptionNode,
@@ -36,6 +37,8 @@ class MicroDVDReader(BaseReader):
             if start == '0' and end == '0':
                 try:
                     fps = float(txt)
+                    # keep the declared decimal rate exact
+                    fps = Fraction(txt.strip())
                     continue
                 except ValueError:
                     raise CaptionReadTimingError(
@@ -67,7 +70,8 @@ class MicroDVDReader(BaseReader):
         return caption_set
 
     def _framestomicro(self, framenum, fps=25.0):
-        return int(framenum / fps * (10 ** 6))
+        # exact arithmetic: binary floats put some frames one microsecond low
+        return int(Fraction(framenum) * (10 ** 6) / Fraction(fps))
 
 
 class MicroDVDWriter(BaseWriter):
